@@ -83,7 +83,8 @@ class DirtyRow(dict):
 class _Worker:
     def __init__(self, pool):
         self.pool = pool
-        self.sem = threading.Semaphore(0)
+        self.sem = threading.Lock()   # binary semaphore: released by the main thread to hand the baton over
+        self.sem.acquire()
         self.fn = None
         self.status = 'idle'
         self.result = None
@@ -124,7 +125,8 @@ class _Pool:
     def __init__(self):
         self.pid = os.getpid()
         self.idle: List[_Worker] = []
-        self.main_sem = threading.Semaphore(0)
+        self.main_sem = threading.Lock()   # binary semaphore: released by a worker to hand the baton back
+        self.main_sem.acquire()
         self.created = 0
         self.busy = 0
 
@@ -190,8 +192,9 @@ def _walk_has_read(node) -> bool:
 
 
 class TxModel:
-    def __init__(self, db, *, snapshot_reads=False, proc_depth=2, yield_plain_selects=True):
+    def __init__(self, db, *, snapshot_reads=False, proc_depth=2, yield_plain_selects=True, max_deadlocks=2):
         self.db = db
+        self.max_deadlocks = max_deadlocks  # executions with more deadlock victims are finished in FIFO order, unbranched
         self.snapshot_reads = snapshot_reads
         self.proc_depth = proc_depth
         self.yield_plain_selects = yield_plain_selects
@@ -202,12 +205,14 @@ class TxModel:
         self.pool = pool()
         self.inflight: List[_Worker] = []
         self.stats = {'yields': 0, 'lock_waits': 0, 'deadlocks': 0, 'locks_s': 0, 'locks_x': 0, 'stmt_retries': 0,
-                      'dirty_column_waits': 0, 'preimage_rows_served': 0}
+                      'dirty_column_waits': 0, 'preimage_rows_served': 0, 'beyond_deadlock_bound': 0}
         self.trace: Optional[list] = None   # set to [] to record (op, event) pairs of one execution
         self.version = 0
         self._store_digest = (None, None)
+        self._table_digest: Dict[str, bytes] = {}
+        self._dirty_tables = set(db.store.tables)
         self._reads_cache: Dict[int, bool] = {}
-        self.history: Dict[Any, list] = {}  # op -> python-level DB interaction history (for state hashing)
+        self.history: Dict[Any, bytes] = {}  # op -> hash of its python-level DB interaction history (for state hashing)
         self.db_tasks: set = set()          # asyncio tasks suspended at a database yield point / lock wait (see TxLoop)
 
     # -- sessions ------------------------------------------------------------------------------------
@@ -355,6 +360,7 @@ class TxModel:
     def lock_row(self, s, tname, key, mode):
         if mode == 'X':
             self.version += 1   # every store write is preceded by an X request
+            self._dirty_tables.add(tname)
         k = (tname, key)
         held = self.locks.get(k)
         if held is None:
@@ -396,6 +402,7 @@ class TxModel:
         s.tx_snap = None
         if s.held:
             for k in s.held:
+                self._dirty_tables.add(k[0])   # a rollback may have restored rows of every table this session wrote
                 held = self.locks.get(k)
                 if held is not None:
                     held.pop(s, None)
@@ -538,18 +545,20 @@ class TxModel:
 
     # -- state digest (for the explorer's state-hash pruning) --------------------------------------------------
     def note(self, op, *what):
-        self.history.setdefault(op, []).append(what)
+        # rolling hash of the operation's history of database interactions (statement, arguments, result / error)
+        self.history[op] = hashlib.blake2b(self.history.get(op, b'') + repr(what).encode(), digest_size=12).digest()
 
     def digest(self):
         v, d = self._store_digest
         if v != self.version:
-            h = hashlib.blake2b(digest_size=16)
-            for n, t in self.db.store.tables.items():
-                if t.rows:
-                    h.update(n.encode())
-                    h.update(repr(sorted(((k, sorted(r.items())) for k, r in t.rows.items()), key=repr)).encode())
-                h.update(repr((t.auto_next, t.rowid_next)).encode())
-            d = h.hexdigest()
+            td = self._table_digest
+            tables = self.db.store.tables
+            for n in self._dirty_tables:
+                t = tables[n]
+                td[n] = hashlib.blake2b(repr((sorted(((k, sorted(r.items())) for k, r in t.rows.items()), key=repr),
+                                              t.auto_next, t.rowid_next)).encode(), digest_size=8).digest()
+            self._dirty_tables.clear()
+            d = hashlib.blake2b(b''.join(td[n] for n in tables), digest_size=16).hexdigest()
             self._store_digest = (self.version, d)
         sess = []
         for s in self.sessions:
@@ -568,7 +577,7 @@ class TxModel:
                          tuple(sorted(h.tx_op for h in self.waiting.get(s, ()))),
                          s.tx_wake is not None and s.tx_wake.is_set()))
         sess.sort(key=repr)
-        hist = tuple(sorted((repr(op), repr(h)) for op, h in self.history.items()))
+        hist = tuple(sorted((repr(op), h) for op, h in self.history.items()))
         return (d, tuple(sess), hist)
 
     def _snap_digest(self, s):
@@ -815,7 +824,11 @@ def make_loop(chooser, tm: TxModel, t0: float):
                 n = len(ready)
                 timer = self._next_timer()
                 total = n + (1 if timer is not None else 0)
-                if total > 1:
+                if tm.stats['deadlocks'] > tm.max_deadlocks:
+                    # retries are unbounded state (attempt counter, back-off clock): beyond the bound finish fairly
+                    tm.stats['beyond_deadlock_bound'] = 1
+                    c = 0
+                elif total > 1:
                     labels = ','.join(self._label(x) for x in ready) + ('|timer' if timer is not None else '')
                     c = self.chooser.choose(total, labels, self.full_state())
                 else:
@@ -838,3 +851,71 @@ def make_loop(chooser, tm: TxModel, t0: float):
     loop = TxLoop(chooser, reorder_ready=True, t0=t0)
     loop.sort_ready_in_state = True   # at a choice point every ready handle is a paused session and every order is explored
     return loop
+
+
+# ---------------------------------------------------------------------------------------------------------
+# one execution: N operations as asyncio tasks over one model
+# ---------------------------------------------------------------------------------------------------------
+
+def run_execution(db, coro_fns, chooser, *, set_backend, order=None, t0=1000.0, snapshot_reads=False, prune=True, trace=False,
+                  context=None, max_steps=200000, model_opts=None):
+    """Run coro_fns[i]() (i = operation index, available to the model through the OP context variable) concurrently
+    (order=None) or one after the other (order = a permutation) on a fresh TxLoop under `chooser`.
+    set_backend(backend) installs the TxBackend where the driver shim looks for it and returns an undo callable.
+    -> (results, model, loop errors).  Workers, locks and the model are always torn down, also on exceptions."""
+    import contextlib
+
+    from vf import vloop
+
+    tm = TxModel(db, snapshot_reads=snapshot_reads, **(model_opts or {}))
+    if trace:
+        tm.trace = []
+    db.txmodel = tm
+    undo_backend = set_backend(TxBackend(db, tm))
+    loop = make_loop(chooser, tm, t0)
+    counters: Dict[Any, int] = {}
+
+    def task_factory(lp, coro, context=None):
+        op = OP.get()
+        k = counters[op] = counters.get(op, 0) + 1
+        return asyncio.Task(coro, loop=lp, name=f'{op}.{getattr(coro, "__qualname__", "coro")}.{k}', context=context)
+
+    loop.set_task_factory(task_factory)
+    if prune:
+        loop.state_fn = lambda: hashlib.blake2b(repr(tm.digest()).encode(), digest_size=12).hexdigest()
+
+    async def one(i):
+        OP.set(i)
+        return await coro_fns[i]()
+
+    async def main():
+        if order is None:
+            ts = [loop.create_task(one(i), name=f'op{i}') for i in range(len(coro_fns))]
+            return [await t for t in ts]
+        res = [None] * len(coro_fns)
+        for i in order:
+            res[i] = await one(i)
+        OP.set(None)
+        return res
+
+    left = 0
+    failed = True
+    try:
+        with (context if context is not None else contextlib.nullcontext()), vloop.owned_time(lambda: loop):
+            res, exc = loop.run(main(), max_steps=max_steps)
+            loop.drain()
+        failed = False
+    finally:
+        try:
+            errs = loop.finish()
+        finally:
+            left = tm.shutdown()
+            db.txmodel = None
+            undo_backend()
+    if exc is not None:
+        raise exc
+    if left:
+        raise HarnessError(f'{left} statement(s) still in flight at the end of an execution')
+    if tm.locks or tm.waiting:
+        raise HarnessError(f'locks / waiters left at the end of an execution: {list(tm.locks)[:3]} {len(tm.waiting)}')
+    return res, tm, errs
